@@ -26,10 +26,11 @@ namespace PebblesVerif
 open PebblesVerif.Point
 
 /-- **Insertion-point codec round trip (list element with id).** For every field name without
-    `#`/`:`, every index and every id without `#`, decoding the encoded point returns exactly
-    the three components. (`:` inside the id is harmless — TestResultSingleObjectWithColonInID.) -/
+    `#`/`:`, every index and EVERY id (it may contain `#` and `:` — the point is cut at the first
+    `#` only, regenerated fact `Gen.Point.idSplitFirst`), decoding the encoded point returns
+    exactly the three components. -/
 theorem C01_point_roundtrip_list (field id : List Char) (i : Nat)
-    (hf1 : '#' ∉ field) (hf2 : ':' ∉ field) (hid : '#' ∉ id) :
+    (hf1 : '#' ∉ field) (hf2 : ':' ∉ field) :
     extractL (encodeListL field i (some id))
       = .ok ⟨String.ofList field, some i, String.ofList id⟩ := by
   have hd1 : '#' ∉ showNat i := not_mem_showNat i '#' (by decide)
@@ -37,10 +38,8 @@ theorem C01_point_roundtrip_list (field id : List Char) (i : Nat)
   have hpre : '#' ∉ field ++ ':' :: showNat i := by
     simp only [List.mem_append, List.mem_cons, not_or]
     exact ⟨hf1, by decide, hd1⟩
-  have hsplit : splitOn '#' (field ++ ':' :: showNat i ++ '#' :: id) = [field ++ ':' :: showNat i, id] := by
-    have := splitOn_append_sep '#' (field ++ ':' :: showNat i) id hpre
-    rw [splitOn_not_mem '#' id hid] at this
-    simpa [List.append_assoc] using this
+  have hsplit : splitFirst '#' (field ++ ':' :: showNat i ++ '#' :: id) = (field ++ ':' :: showNat i, id) :=
+    splitFirst_append_sep '#' (field ++ ':' :: showNat i) id hpre
   have hcont : (field ++ ':' :: showNat i ++ '#' :: id).contains '#' = true := by simp
   have hsplit2 : splitOn ':' (field ++ ':' :: showNat i) = [field, showNat i] := by
     have := splitOn_append_sep ':' field (showNat i) hf2
@@ -49,7 +48,7 @@ theorem C01_point_roundtrip_list (field id : List Char) (i : Nat)
   have hcont2 : (field ++ ':' :: showNat i).contains ':' = true := by simp
   unfold extractL encodeListL
   simp only [List.append_assoc, List.cons_append] at hsplit hcont ⊢
-  simp only [hcont, ↓reduceIte, hsplit, hcont2, hsplit2, allDigits_showNat, digitsToNat_showNat]
+  simp only [hcont, ↓reduceIte, idSplitFirst_current, hsplit, hcont2, hsplit2, allDigits_showNat, digitsToNat_showNat]
 
 /-- **Round trip without an id** (intermediate points of a path: `friends:3`). -/
 theorem C01_point_roundtrip_list_noid (field : List Char) (i : Nat)
@@ -74,24 +73,48 @@ theorem C01_point_roundtrip_list_noid (field : List Char) (i : Nat)
   simp only [List.append_nil]
   simp [hno', hsplit2, allDigits_showNat, digitsToNat_showNat]
 
-/-- **Object point with id** (`owner#User_8`). -/
+/-- **Object point with id** (`owner#User_8`), for EVERY id. -/
 theorem C01_point_roundtrip_obj (field id : List Char)
-    (hf1 : '#' ∉ field) (hf2 : ':' ∉ field) (hid : '#' ∉ id) :
+    (hf1 : '#' ∉ field) (hf2 : ':' ∉ field) :
     extractL (field ++ '#' :: id) = .ok ⟨String.ofList field, none, String.ofList id⟩ := by
-  have hsplit : splitOn '#' (field ++ '#' :: id) = [field, id] := by
-    have := splitOn_append_sep '#' field id hf1
-    rw [splitOn_not_mem '#' id hid] at this
-    exact this
+  have hsplit : splitFirst '#' (field ++ '#' :: id) = (field, id) := splitFirst_append_sep '#' field id hf1
   have hcont : (field ++ '#' :: id).contains '#' = true := by simp
   have hno : field.contains ':' = false := by simpa using hf2
   unfold extractL
-  simp [hsplit]
-  intro h; exact absurd h hf2
+  simp only [hcont, ↓reduceIte, idSplitFirst_current, hsplit, hno]
+  simp
 
-/-- **The hypothesis is forced** — an id containing `#` decodes to the EMPTY id (after which
-    `getVariables` fails with "could not find id in path"): concrete witness, by evaluation. -/
-theorem C01_point_hash_breaks :
-    extractL ['o', 'w', 'n', 'e', 'r', '#', 'a', '#', 'b'] = .ok ⟨"owner", none, ""⟩ := by rfl
+/-- **An id containing `#` survives** (it did not before the repair `strings.SplitN(point, "#", 2)`:
+    the id was dropped and `getVariables` failed with "could not find id in path"). Concrete
+    witness, by evaluation. -/
+theorem C01_point_hash_in_id :
+    extractL ['o', 'w', 'n', 'e', 'r', '#', 'a', '#', 'b'] = .ok ⟨"owner", none, "a#b"⟩ := by rfl
+
+/-! ## Finding the stitch point in a step's selection set -/
+
+/-- **A field of the current level is never shadowed by a deeper field with the same response
+    name.** For every selection set: if a field with response name `name` stands at the current
+    level (through inline fragments — `ResultOps.findLevel`), `executor.FindSelection` returns that
+    field, whatever lies deeper and earlier. Stands on the regenerated fact that the function
+    searches the current level first (`Gen.FindSelection.levelFirst`, read from
+    executor/selection_set.go on every run). -/
+theorem C01_find_selection_level_first (name : String) (ss : List Sel) (f : Sel)
+    (h : ResultOps.findLevel name ss = some f) : ResultOps.findSelection name ss = some f := by
+  have hfact : Gen.FindSelection.levelFirst = true := by decide
+  unfold ResultOps.findSelection
+  simp only [hfact, ↓reduceIte, ResultOps.findSelectionLF, h]
+
+/-- **What the single depth-first loop did** (before the repair): in
+    `{ w { items { n } }  items { n extra } }` the stitch-path name `items` resolved to the field
+    below `w` — a valid query was then answered "root value of result chunk was not a list".
+    Concrete witness on the depth-first search, by evaluation. -/
+theorem C01_find_selection_depth_first_shadowed :
+    let inner : Sel := .field "" "items" [] [] (.named "Item") [] [.field "" "n" [] [] (.named "Int") [] []]
+    let outer : Sel := .field "" "items" [] [] (.list (.named "Item")) [] [.field "" "n" [] [] (.named "Int") [] [], .field "" "extra" [] [] (.named "Int") [] []]
+    let ss : List Sel := [.field "" "w" [] [] (.named "W") [] [inner], outer]
+    (ResultOps.findSelectionDF "items" ss).map ResultOps.selType = some (.named "Item") ∧
+    (ResultOps.findSelectionLF "items" ss).map ResultOps.selType = some (.list (.named "Item")) := by
+  exact ⟨rfl, rfl⟩
 
 /-! ## The semantic core of federation (reference evaluator) -/
 
